@@ -1,7 +1,7 @@
 SPECIFICATION SimSpec
 CONSTANTS
   KeySeq <- KeySeq3
-  Configs <- ConfigsManual
+  Configs <- ConfigsSim
   KeyModes = {"", "if_new", "if_new_refresh", "if_exists"}
   CasOffs = {0, 1, 2, 3, 4}
   CasEps = {0, 1, 2}
@@ -12,10 +12,11 @@ CONSTANTS
   Scores <- ScoresSim
   Limits <- LimitsBig
   PageSizes = {1, 2}
-  MaxNow = 6
+  MaxNow = 8
   MaxPubs = 8
-  MaxOps = 16
-  Deterministic = FALSE
-  Manual = TRUE
+  MaxOps = 14
+  Deterministic = TRUE
+  Manual = FALSE
+  Focus19 <- TrueDef
 INVARIANTS TypeOK SweeperArmed ReadStreamIsRetainedSuffix ReadStateIsRefPage PageAfterCursor OrderedFlagFollowsOptions
 CHECK_DEADLOCK FALSE
